@@ -30,6 +30,9 @@ func cloneTx(t *gobinlog.Transaction) *gobinlog.Transaction {
 		c.Events = make([]*gobinlog.StreamEvent, len(t.Events))
 	}
 	for i, e := range t.Events {
+		if e == nil {
+			continue
+		}
 		ec := *e
 		if e.Query.Charset != nil {
 			cs := *e.Query.Charset
@@ -41,8 +44,17 @@ func cloneTx(t *gobinlog.Transaction) *gobinlog.Transaction {
 			}
 			out := make([]*gobinlog.RowData, len(rows))
 			for j, r := range rows {
-				rc := &gobinlog.RowData{Columns: make([]*gobinlog.ColumnData, len(r.Columns))}
+				if r == nil {
+					continue
+				}
+				rc := &gobinlog.RowData{}
+				if r.Columns != nil {
+					rc.Columns = make([]*gobinlog.ColumnData, len(r.Columns))
+				}
 				for k, col := range r.Columns {
+					if col == nil {
+						continue
+					}
 					cc := *col
 					if col.Data != nil {
 						cc.Data = append([]byte{}, col.Data...)
@@ -125,7 +137,7 @@ func checkC08(c *StabilityCase) error {
 		snaps = append(snaps, snap)
 		return nil
 	}
-	st := ss.run(attempt{l: l, pacing: c.E.Pacing, handler: handler, plan: &fakemaster.ConnPlan{Chop: c.E.Chop}})
+	st := ss.run(attempt{l: l, pacing: c.E.Pacing, handler: handler, plan: &fakemaster.ConnPlan{Chop: c.E.Chop}, noSnapshot: true, noMangle: true})
 	st.drainLib()
 	if err := st.panicErr(); err != nil {
 		return err
